@@ -27,6 +27,6 @@ if __name__ == '__main__':
             for o, r in zip(fr.obligations, res):
                 ok = (r.verdict == 'unsat') if o.expect == 'unsat' else (r.verdict != 'unsat')
                 if not ok or os.environ.get('VK_V'):
-                    print('  %-4s %-60s %-8s %-6s %.2fs  %s' % ('ok' if ok else 'FAIL', o.id, r.verdict, r.backend, r.secs, o.meta['text'][:90]))
+                    print('  %-4s %-60s %-8s %-6s %.2fs rl=%d  %s' % ('ok' if ok else 'FAIL', o.id, r.verdict, r.backend, r.secs, r.rl, o.meta['text'][:90]))
                 bad += not ok
             print('%s%s: %d obligations, %d failed, %d paths, %.1fs' % (q, case or '', len(res), bad, fr.paths, time.time() - t))
